@@ -180,6 +180,7 @@ const smtPrelude = `(set-option :produce-models true)
 (set-logic ALL)
 (declare-sort Str 0)
 (declare-fun slen (Str) Int)
+(assert (forall ((s Str)) (! (and (<= 0 (slen s)) (<= (slen s) 9223372036854775807)) :pattern ((slen s)))))
 (declare-fun sat (Str Int) Int)
 (declare-fun sconcat (Str Str) Str)
 (declare-fun ssub (Str Int Int) Str)
